@@ -14,6 +14,7 @@
 //! part per API family: `buffer`, `sauce`, `bitfont`, `tdf`, `palette`.
 mod golden;
 mod mutate;
+mod pairs;
 mod textfield;
 
 use golden::*;
@@ -722,6 +723,8 @@ fn family_cases(f: Family) -> BoxedStrategy<Case> {
 /// known-field extreme of every golden file, for one representative extension per loader and for every API
 fn systematic(thorough: bool) -> Vec<Case> {
     let mut out = Vec::new();
+    pairs::pair_cases(thorough, &mut out);
+    pairs::csi_cases(thorough, &mut out);
     let mut seen_groups = Vec::new();
     for (ti, t) in TARGETS.iter().enumerate() {
         let representative = match t.kind {
@@ -1136,7 +1139,7 @@ fn main() {
         eng.assume("release profile semantics (overflow-checks off, debug-assertions off), as a user of the shipped crate sees it");
     }
     eng.assume("file names always carry an extension (Buffer::from_bytes unwraps it); PaletteFormat::Ase is not a loader (todo!() for every input) and is not called");
-    eng.assume("hangs and memory growth are C03's subject: timeouts and heap-cap hits (2 GiB, e.g. an IcyDraw layer record with width 0x7FFFFFFF) are counted as inconclusive, not as violations (heapcap_is_violation(false) on every part); numbers in generated terminal streams are capped at 999 so that cursor movement cannot allocate gigabytes of rows; sixel decode threads are given the time parse_with_parser gives them");
+    eng.assume("hangs and memory growth are C03's subject: timeouts and heap-cap hits (512 MiB per file, e.g. an IcyDraw layer record with width 0x7FFFFFFF or a cursor movement by 2^31 rows) are counted as inconclusive, not as violations (heapcap_is_violation(false) on every part); numbers in generated terminal streams are capped at 999 so that cursor movement cannot allocate gigabytes of rows; sixel decode threads are given the time parse_with_parser gives them");
     let thorough = eng.is_thorough();
     let worker = std::env::var("ICYV_WORKER").is_ok();
 
@@ -1149,7 +1152,7 @@ fn main() {
     // ICYV_C02_HANGS=<ms> (debugging aid): report hangs as failures with a short timeout to get their replay files
     let hang_ms: Option<u64> = std::env::var("ICYV_C02_HANGS").ok().and_then(|s| s.parse().ok());
     let cfg = move |name: &'static str, q: u64, t: u64| {
-        let c = PartCfg::new(name, q, t).isolated().timeout_ms(20_000).heapcap_is_violation(false).shrink_budget(600);
+        let c = PartCfg::new(name, q, t).isolated().timeout_ms(20_000).heap_cap(512 << 20).heapcap_is_violation(false).shrink_budget(600);
         match hang_ms {
             Some(ms) => c.timeout_ms(ms).hang_is_violation(true),
             None => c,
